@@ -12,6 +12,7 @@ mod rec;
 mod replay;
 #[cfg(feature = "serde")]
 mod serde_chk;
+mod sweep;
 #[cfg(unic_locale_verif)]
 mod tables;
 
@@ -117,6 +118,12 @@ fn main() {
                         }
                     }
                 }
+            }
+            if let Some(sw) = r.sweep.take() {
+                let stride: usize = std::env::var("VERIF_SWEEP_STRIDE").ok().and_then(|s| s.parse().ok()).unwrap_or(1).max(1);
+                let offset: usize = std::env::var("VERIF_SEED").ok().and_then(|s| s.parse().ok()).unwrap_or(0);
+                r.cur_case = None;
+                sw.run(&mut r, wd.progress.clone(), stride, offset);
             }
             let mut s = r.summary();
             s["cases"] = serde_json::json!(n);
